@@ -32,7 +32,9 @@ def install(reg, src):
         reg.bounded_checks.setdefault(prop_, []).append({
             "name": "jacobian", "script": "bounded_jacobian.py", "args": {"what": "jacobian"}, "timeout": 900,
             "bound": "pool of ~120 expressions (every node kind in a few contexts, vectors of length 3, a 2x2 matrix) x 4 variable "
-                     "lists (own order, reversed, seeded permutation, superset) x 2 points, every Parameter of the expression set "
+                     "lists (own order, reversed, seeded permutation, superset, two interleaved supersets; for the nodes with index-array "
+                     "fast paths every arrangement of their <= 3 variables alone and with one foreign variable) x 2 points, every "
+                     "Parameter of the expression set "
                      "to a new value between compilation and the second point; compile_jacobian for 1 and 2 expressions and "
                      "compile_gradient compared with Richardson-extrapolated central differences of an independent evaluator",
             "why": "QuadraticForm / MatrixSum rows, the vectorised power / unary gradients and lists of 2+ expressions are stated but "
